@@ -25,7 +25,7 @@ RULE = ("ChaosModel(seed, cfg): plain / grid / line / continuous (wrapping or no
         "inside timesteps; non-trivial = >=1 pick and >=1 shuffle over >=3 agents and >=1 perturbation fired between "
         "two draws; distinct = (world, system mix, perturbation kinds and placement); cross-environment arm: fresh "
         "interpreters under other PYTHONHASHSEEDs and real batch_run workers"
-        "; also: str / bytes / float label seeds, environments handed from a builder model to the run model (Environment.set_model)")
+        "; also: str / bytes / float label seeds, environments handed from a builder model to the run model (Environment.set_model), a grid-walk system that reorders the neighbour lists it gets from the world in place")
 COMPONENTS = {"real": ["ECAgent.Core.Model.random", "Environment.get_random_agent / shuffle / get_agents",
                        "SpaceWorld / GridWorld / LineWorld add_agent, move, remove_agent", "AgentCollector",
                        "ECAgent.Batching.batch_run with the real multiprocessing.Pool (cross-environment arm)"],
